@@ -55,7 +55,10 @@ func init() {
 				fail("wait: %v", err)
 			}
 			if ws.Exited() || ws.Signaled() {
-				fail("target ended before reaching the routine")
+				// the call ran to its end without ever entering the routine: reported as an empty trace
+				// with exit status 5 (the caller decides what that means)
+				os.Stdout.Write([]byte("[]"))
+				os.Exit(5)
 			}
 			if ws.Stopped() && ws.StopSignal() == syscall.SIGTRAP {
 				var regs syscall.PtraceRegs
